@@ -2817,10 +2817,14 @@ func (b *IPRouteBody) serialize(version uint8, software Software) ([]byte, error
 		buf = append(buf, tmpbuf...)
 	}
 	if b.Message&messageOpaque.ToEach(version, software) > 0 {
+		if int(b.opaque.length) > len(b.opaque.data) {
+			return nil, fmt.Errorf("opaque data length %d is greater than %d", b.opaque.length, len(b.opaque.data))
+		}
 		tmpbuf := make([]byte, 2)
 		binary.BigEndian.PutUint16(tmpbuf, b.opaque.length)
-		buf = append(buf, tmpbuf...)           // frr: stream_putw(s, api->opaque.length);
-		buf = append(buf, b.opaque.data[:]...) // frr: stream_write(s, api->opaque.data, api->opaque.length);
+		buf = append(buf, tmpbuf...) // frr: stream_putw(s, api->opaque.length);
+		// frr: stream_write(s, api->opaque.data, api->opaque.length);
+		buf = append(buf, b.opaque.data[:b.opaque.length]...)
 	}
 	return buf, nil
 }
